@@ -25,7 +25,7 @@ RULE = ('per format (CSEP CSV, JMA CSV, ZMAP, HORUS, NDK), files written by the 
         'pair of distinct letters of a medium alphabet (every time letter x offset, thorough also x variant; coordinates '
         'rotating); (3) every triple with repetition over a reduced alphabet (6 | 10 time letters); (4) structured long '
         'files: all 60 seconds, 60 minutes, 24 hours, first and last day of all 24 months of a leap and a common year, 120 '
-        'consecutive minutes each with second 60, all 1000 millisecond phases of 2 | 5 seconds for the millisecond formats; '
+        'consecutive minutes each with second 60, 60 seconds with a quarter-second fraction, 5000 (thorough 30000) records, all 1000 millisecond phases of 2 | 5 seconds for the millisecond formats; '
         '(5) the clock letters on another calendar day (quick: the day selected by VERIF_SEED, thorough: all 4 days) as '
         'singles, doubles and all ordered pairs. Files are distinct by construction (measured again as distinct_files). '
         'A file is non-trivial iff it has >= 2 records, a non-default file option, or a record with one of: second written '
@@ -72,6 +72,7 @@ TIMES = [
     ('plain', [2010, 6, 15, 12, 30, '0'], False),
     ('distinct-fields', [2003, 4, 5, 6, 7, '8.25'], False),
     ('second-59.999', [2010, 6, 15, 12, 30, '59.999'], False),
+    ('second-59.25', [2010, 6, 15, 12, 30, '59.25'], False),
     ('second-60', [2010, 6, 15, 12, 30, '60'], True),
     ('minute-59-second-60', [2010, 6, 15, 12, 59, '60'], True),
     ('hour-23-second-60', [2010, 6, 15, 23, 59, '60'], True),
@@ -242,6 +243,11 @@ def long_files(fmt, tier):
             files.append([rec(k, b[:5] + ['%d.%03d' % (b[5], k)]) for k in range(1000)])
     if fmt in CAN_60:
         files.append([rec(m, [2010, 6, 15, 22 + m // 60, m % 60, '60']) for m in range(120)])
+    # every second of a minute with a quarter-second fraction (cut to the format's digits)
+    files.append([rec(s_, [2010, 6, 15, 7, 15, '%d.25' % s_]) for s_ in range(60)])
+    # thousands of records (files beyond 100 kB / 1 MB)
+    for n in (5000,) + ((30000,) if tier == 'thorough' else ()):
+        files.append([rec(k, [1990 + k // 336, 1 + (k // 28) % 12, 1 + k % 28, k % 24, (k * 7) % 60, '%d' % ((k * 11) % 60)]) for k in range(n)])
     return files
 
 
